@@ -1,6 +1,7 @@
 """helpers for the file-format properties (C01, C02, C18, C19, C20): scratch directories, test trajectories, loaders"""
 import contextlib
 import hashlib
+import math
 import os
 import shutil
 import tempfile
@@ -152,3 +153,36 @@ def tree_digest(path):
             p = os.path.join(d, f)
             out.append("%s:%d:%s" % (os.path.relpath(p, path), os.path.getsize(p), sha(p)))
     return "D:" + hashlib.sha256("\n".join(out).encode()).hexdigest()
+
+
+def write_dcd_fixed_atoms(path, xyz_nm, free_atoms, cell=None):
+    """A CHARMM-flavoured DCD with fixed atoms (header NAMNF > 0), as CHARMM / NAMD write them: the first frame stores every atom,
+    later frames only the free ones (the reader fills the fixed ones in from the first frame).  Written from the format description
+    (X-PLOR / CHARMM DCD), independent of mdtraj, which never writes such files.  xyz in nm; cell = (lengths nm, angles deg) per frame."""
+    import struct
+    xyz = np.asarray(xyz_nm, dtype=np.float64) * 10.0
+    n_frames, n_atoms, _ = xyz.shape
+    free = np.asarray(free_atoms, dtype=np.int64)
+    n_fixed = n_atoms - len(free)
+    with open(path, "wb") as fh:
+        hdr = [0] * 20
+        hdr[0], hdr[1], hdr[2], hdr[8], hdr[10], hdr[19] = n_frames, 0, 1, n_fixed, (1 if cell is not None else 0), 24
+        block = bytearray(struct.pack("<20i", *hdr))
+        block[36:40] = struct.pack("<f", 1.0)
+        fh.write(struct.pack("<i", 84) + b"CORD" + bytes(block) + struct.pack("<i", 84))
+        fh.write(struct.pack("<ii", 84, 1) + b" " * 80 + struct.pack("<i", 84))
+        fh.write(struct.pack("<iii", 4, n_atoms, 4))
+        if n_fixed:
+            rec = struct.pack("<i", 4 * len(free))
+            fh.write(rec + (free + 1).astype("<i4").tobytes() + rec)
+        for k in range(n_frames):
+            if cell is not None:
+                L, A = np.asarray(cell[0][k], dtype=np.float64) * 10.0, np.radians(np.asarray(cell[1][k], dtype=np.float64))
+                # CHARMM order: A, cos(gamma), B, cos(beta), cos(alpha), C
+                rec6 = struct.pack("<6d", L[0], math.cos(A[2]), L[1], math.cos(A[1]), math.cos(A[0]), L[2])
+                fh.write(struct.pack("<i", 48) + rec6 + struct.pack("<i", 48))
+            sel = slice(None) if (k == 0 or not n_fixed) else free
+            for d in range(3):
+                v = xyz[k, sel, d].astype("<f4")
+                rec = struct.pack("<i", 4 * len(v))
+                fh.write(rec + v.tobytes() + rec)
